@@ -44,6 +44,47 @@ where
     println!("{tag}|lookup|{:?}|{:?}", Q::unit_from_symbol(&us[0].symbol()), Q::unit_from_scale(us[us.len() - 1].scale()));
 }
 
+/// every unit pair of a declared operator instance; a panic (Decimal range) is an event like any other
+fn dmul<A, B, R>(tag: &str, name: &str)
+where
+    A: HasRefUnit + std::ops::Mul<B, Output = R> + std::panic::UnwindSafe,
+    B: HasRefUnit + std::panic::UnwindSafe,
+    R: Display,
+    A::UnitType: LinearScaledUnit + Debug,
+    B::UnitType: LinearScaledUnit + Debug,
+{
+    for u in A::iter_units() {
+        for v in B::iter_units() {
+            let a = A::new(Amnt!(2), u);
+            let b = B::new(Amnt!(3), v);
+            match std::panic::catch_unwind(move || format!("{}", a * b)) {
+                Ok(s) => println!("{tag}|{name}|{:?}|{:?}|{}", u, v, s),
+                Err(_) => println!("{tag}|{name}|{:?}|{:?}|panic", u, v),
+            }
+        }
+    }
+}
+
+fn ddiv<A, B, R>(tag: &str, name: &str)
+where
+    A: HasRefUnit + std::ops::Div<B, Output = R> + std::panic::UnwindSafe,
+    B: HasRefUnit + std::panic::UnwindSafe,
+    R: Display,
+    A::UnitType: LinearScaledUnit + Debug,
+    B::UnitType: LinearScaledUnit + Debug,
+{
+    for u in A::iter_units() {
+        for v in B::iter_units() {
+            let a = A::new(Amnt!(6), u);
+            let b = B::new(Amnt!(2), v);
+            match std::panic::catch_unwind(move || format!("{}", a / b)) {
+                Ok(s) => println!("{tag}|{name}|{:?}|{:?}|{}", u, v, s),
+                Err(_) => println!("{tag}|{name}|{:?}|{:?}|panic", u, v),
+            }
+        }
+    }
+}
+
 fn section<F: FnOnce() + std::panic::UnwindSafe>(tag: &str, f: F) {
     if std::panic::catch_unwind(f).is_err() {
         println!("{tag}|PANIC");
@@ -81,6 +122,7 @@ fn main() {
         let back: Length = a / l;
         println!("area|derived|{}|{}|{}|{}", a, back, &l * &w, (Amnt!(2) * KILOMETER) * (Amnt!(3) * KILOMETER));
         corpus::<Area>("area");
+        dmul::<Length, Length, Area>("area", "LxL"); ddiv::<Area, Length, Length>("area", "A/L");
     });
     #[cfg(feature = "volume")]
     section("volume", || {
@@ -93,6 +135,7 @@ fn main() {
         let ll: Length = v / a;
         println!("volume|derived|{}|{}|{}|{}", v, v2, la, ll);
         corpus::<Volume>("volume");
+        dmul::<Length, Area, Volume>("volume", "LxA"); dmul::<Area, Length, Volume>("volume", "AxL"); ddiv::<Volume, Length, Area>("volume", "V/L"); ddiv::<Volume, Area, Length>("volume", "V/A");
     });
     #[cfg(feature = "speed")]
     section("speed", || {
@@ -105,6 +148,7 @@ fn main() {
         let t2: Duration = l / v;
         println!("speed|derived|{}|{}|{}|{}", v, d, d2, t2);
         corpus::<Speed>("speed");
+        ddiv::<Length, Duration, Speed>("speed", "L/D"); dmul::<Speed, Duration, Length>("speed", "SxD"); dmul::<Duration, Speed, Length>("speed", "DxS"); ddiv::<Length, Speed, Duration>("speed", "L/S");
     });
     #[cfg(feature = "acceleration")]
     section("acceleration", || {
@@ -116,6 +160,7 @@ fn main() {
         let t2: Duration = v / a;
         println!("acceleration|derived|{}|{}|{}|{}", a, v2, t * a, t2);
         corpus::<Acceleration>("acceleration");
+        ddiv::<Speed, Duration, Acceleration>("acceleration", "S/D"); dmul::<Acceleration, Duration, Speed>("acceleration", "AxD"); ddiv::<Speed, Acceleration, Duration>("acceleration", "S/A");
     });
     #[cfg(feature = "force")]
     section("force", || {
@@ -128,6 +173,7 @@ fn main() {
         let a2: Acceleration = f / m;
         println!("force|derived|{}|{}|{}|{}", f, f2, m2, a2);
         corpus::<Force>("force");
+        dmul::<Mass, Acceleration, Force>("force", "MxA"); ddiv::<Force, Mass, Acceleration>("force", "F/M"); ddiv::<Force, Acceleration, Mass>("force", "F/A");
     });
     #[cfg(feature = "energy")]
     section("energy", || {
@@ -140,6 +186,7 @@ fn main() {
         let l2: Length = e / f;
         println!("energy|derived|{}|{}|{}|{}", e, e2, f2, l2);
         corpus::<Energy>("energy");
+        dmul::<Force, Length, Energy>("energy", "FxL"); ddiv::<Energy, Force, Length>("energy", "E/F"); ddiv::<Energy, Length, Force>("energy", "E/L");
     });
     #[cfg(feature = "power")]
     section("power", || {
@@ -151,6 +198,7 @@ fn main() {
         let t2: Duration = e / p;
         println!("power|derived|{}|{}|{}|{}", p, e2, t * p, t2);
         corpus::<Power>("power");
+        ddiv::<Energy, Duration, Power>("power", "E/D"); dmul::<Power, Duration, Energy>("power", "PxD"); ddiv::<Energy, Power, Duration>("power", "E/P");
     });
     #[cfg(feature = "frequency")]
     section("frequency", || {
@@ -162,6 +210,7 @@ fn main() {
         let t2: Duration = Amnt!(2) / f;
         println!("frequency|derived|{}|{}|{}|{}", f, n, n2, t2);
         corpus::<Frequency>("frequency");
+        ddiv::<AmountT, Duration, Frequency>("frequency", "1/D"); dmul::<Frequency, Duration, AmountT>("frequency", "FxD"); ddiv::<AmountT, Frequency, Duration>("frequency", "1/F");
     });
     #[cfg(feature = "datavolume")]
     section("datavolume", || {
@@ -179,6 +228,7 @@ fn main() {
         let t2: Duration = d / r;
         println!("datathroughput|derived|{}|{}|{}|{}", r, d2, t * r, t2);
         corpus::<DataThroughput>("datathroughput");
+        ddiv::<DataVolume, Duration, DataThroughput>("datathroughput", "V/D"); dmul::<DataThroughput, Duration, DataVolume>("datathroughput", "TxD"); ddiv::<DataVolume, DataThroughput, Duration>("datathroughput", "V/T");
     });
     #[cfg(feature = "temperature")]
     section("temperature", || {
